@@ -636,6 +636,41 @@ def _triggs_eval(f, X, G1, G2):
     raise AnalysisError('C09.TRIGGS: Triggs.forward has no return')
 
 
+def _inline_expression_helpers(repo, f):
+    """a copy of the function in which every call of a package function / method whose body is one returned expression is replaced by that expression (parameters
+    substituted): a formula moved into a helper reads like the formula in place"""
+    import copy
+
+    class _Shim:
+        pass
+
+    class T(ast.NodeTransformer):
+        def visit_Call(self, c):
+            self.generic_visit(c)
+            try:
+                cands, how = repo.resolve_call(f, c, by_name=False)
+            except Exception:
+                return c
+            if len(cands) != 1 or how not in ('direct', 'self', 'cls'):
+                return c
+            g = cands[0]
+            body = [st for st in g.node.body if not (isinstance(st, ast.Expr) and isinstance(st.value, ast.Constant))]
+            if len(body) != 1 or not isinstance(body[0], ast.Return) or body[0].value is None or c.keywords:
+                return c
+            params = list(g.pos_params)
+            if how in ('self', 'cls') and params and not g.is_static():
+                params = params[1:]
+            if len(params) != len(c.args):
+                return c
+            return subst(copy.deepcopy(body[0].value), dict(zip(params, c.args)))
+    sh = _Shim()
+    sh.node = T().visit(copy.deepcopy(f.node))
+    ast.fix_missing_locations(sh.node)
+    sh.pos_params, sh.fq, sh.cls, sh.module = f.pos_params, f.fq, f.cls, f.module
+    sh.relpath = getattr(f, 'relpath', None)
+    return sh
+
+
 @guarded
 def rule_triggs(repo, tier):
     """The three identities that make (R', J') the Triggs correction, decided in the abstraction in which every quantity of forward() is a scalar per residual, a
@@ -649,11 +684,12 @@ def rule_triggs(repo, tier):
                      'c (a + b) = rho\' (gradient of the robust loss), a^2 = rho\' and (a + b)^2 = rho\' + 2 rho\'\' |R|^2 (Triggs Gauss-Newton Hessian), on a grid of '
                      '(|R|^2, rho\', rho\'\')', floor=27)
     f = repo.func(COR, 'Triggs.forward')
+    fe = _inline_expression_helpers(repo, f)
     bad = {}
     for X in (0.2, 1.0, 4.0):
         for G1 in (0.3, 1.0, 2.5):
             for G2 in (0.1, 0.7, 3.0):
-                r, j = _triggs_eval(f, X, G1, G2)
+                r, j = _triggs_eval(fe, X, G1, G2)
                 if not (isinstance(r, _V) and isinstance(j, _M)):
                     raise AnalysisError('C09.TRIGGS: the returned pair is not (multiple of R, operator on J) in the abstraction')
                 grad, across, along = r.c * (j.a + j.b), j.a * j.a, (j.a + j.b) ** 2
